@@ -1,11 +1,14 @@
 #!/usr/bin/env python3
-"""Files a confirmed seeded change:  tools/seeded_intake.py C09 /tmp/seed-C09 "needs ..." [extra props]"""
+"""Files a confirmed seeded change:
+   tools/seeded_intake.py C09[-b] /tmp/seed-C09 "needs ..." [extra props]
+(directory name = first argument; the property is its first three characters)"""
 import json, shutil, sys
 from pathlib import Path
 VERIF = Path(__file__).resolve().parent.parent
-pid, src, needs, *extra = sys.argv[1:]
+name, src, needs, *extra = sys.argv[1:]
+pid = name[:3]
 src = Path(src)
-d = VERIF / "seeded" / pid
+d = VERIF / "seeded" / name
 d.mkdir(parents=True, exist_ok=True)
 shutil.copy(src / "patch.diff", d / "patch.diff")
 shutil.copy(src / "demo.py", d / "demo.py")
